@@ -431,6 +431,8 @@ func c03Expect(ops []rOp, method string, segs []string) (string, map[string]stri
 func c03CombineCorr(ctx *Ctx, n int) error {
 	locs := []string{"path", "query", "header", "cookie"}
 	names := []string{"id", "limit", "X-A"}
+	var prevG []codegen.ParameterDefinition
+	var prevGe []interface{}
 	for i := 0; i < n; i++ {
 		r := ctx.Rng.Fork()
 		mk := func(k int, base int) ([]codegen.ParameterDefinition, []interface{}) {
@@ -449,7 +451,24 @@ func c03CombineCorr(ctx *Ctx, n int) error {
 		}
 		g, ge := mk(r.Intn(4), 100)
 		l, le := mk(r.Intn(4), 200)
+		if i%2 == 1 && i > 0 && prevG != nil {
+			// the next operation of the same path item: the very slice the previous call was given (the generator passes
+			// the path item's list to every operation of the path)
+			g, ge = prevG, prevGe
+		}
+		snapshot := func(ps []codegen.ParameterDefinition) string {
+			var t []string
+			for _, p := range ps {
+				t = append(t, fmt.Sprintf("%s/%s/%v/%s", p.In, p.ParamName, p.Required, p.Spec.Description))
+			}
+			return strings.Join(t, ",")
+		}
+		gBefore, lBefore := snapshot(g), snapshot(l)
 		got, err := codegen.CombineOperationParameters(g, l)
+		if gAfter, lAfter := snapshot(g), snapshot(l); gAfter != gBefore || lAfter != lBefore {
+			ctx.Res.Violate("combine:arguments-modified", fmt.Sprintf("CombineOperationParameters changes the lists it is given: path item [%s] => [%s], operation [%s] => [%s] (the path item's list is shared by every operation of the path)", gBefore, gAfter, lBefore, lAfter), J{"path-item": ge, "operation": le})
+		}
+		prevG, prevGe = g, ge
 		var m struct {
 			Ok    []int  `json:"ok"`
 			Error string `json:"error"`
